@@ -83,3 +83,52 @@ SPECS += [
 @extra("C07")
 def _f(tier, seed):
     return pair_obligations("C07", SPECS, tier)
+
+
+# ---- RescaleToBounds on arrays: the round trip of the whole
+# reparameterisation (two parameters, own bounds / offsets / rescale
+# bounds), through the contracts of the two real methods ------------------
+def _w(p):
+    return f"(self.bounds['{p}'][1] - self.bounds['{p}'][0])"
+
+
+def _u(p):
+    return (f"((x['{p}'][i] - self.offsets['{p}'] - self.bounds['{p}'][0])"
+            f" / {_w(p)})")
+
+
+RP_ASSUME = ["len(x) == len(x_prime) and len(log_j) == len(x)",
+             "not self.has_pre_rescaling"] + [
+    f"self.bounds['{p}'][0] < self.bounds['{p}'][1] and "
+    f"self._rescale_factor['{p}'] > 0" for p in "ab"]
+LG_ASSUME = ["self.has_post_rescaling"] + [
+    f"self._rescale_factor['{p}'] == 1 and self._rescale_shift['{p}'] == 0"
+    for p in "ab"] + [
+    "forall(i, 0, len(x), " + " and ".join(
+        f"0 < {_u(p)} and {_u(p)} < 1" for p in "ab") + ")"]
+ROUND = ["forall(i, 0, len(x), x['a'][i] == old(x['a'])[i] and "
+         "x['b'][i] == old(x['b'])[i])",
+         "forall(i, 0, len(x), x['logL'][i] == old(x['logL'])[i] and "
+         "x['logP'][i] == old(x['logP'])[i])",
+         "forall(i, 0, len(x), E(log_j[i]) == E(old(log_j)[i]))"]
+SPECS += [
+    {"name": "RescaleToBounds:inverse∘forward",
+     "first": (RR, "RescaleToBounds.reparameterise#seq"),
+     "second": (RR, "RescaleToBounds.inverse_reparameterise#seq"),
+     "self_shape": "RescaleToBoundsRP",
+     "params": {"x": XS, "x_prime": XP, "log_j": "Seq(Real)"},
+     "assume": RP_ASSUME + ["not self.has_post_rescaling"],
+     "args1": ["x", "x_prime", "log_j", "False"],
+     "args2": ["x", "x_prime", "log_j"],
+     "prove": ROUND},
+    {"name": "RescaleToBounds(logit):inverse∘forward",
+     "first": (RR, "RescaleToBounds.reparameterise#seq-logit"),
+     "second": (RR, "RescaleToBounds.inverse_reparameterise#seq-logit"),
+     "self_shape": "RescaleToBoundsRP",
+     "params": {"x": XS, "x_prime": XP, "log_j": "Seq(Real)"},
+     "assume": RP_ASSUME + LG_ASSUME,
+     "args1": ["x", "x_prime", "log_j", "False"],
+     "args2": ["x", "x_prime", "log_j"],
+     "prove": ROUND[:2] + [
+         "forall(i, 0, len(x), log_j[i] == old(log_j)[i])", ROUND[2]]},
+]
